@@ -321,6 +321,8 @@ def relabel(keys, *args, **relabels):
                 res = {key : key + arg for key in keys}
             elif arg.endswith('_'):
                 res = {key : arg + key for key in keys}
+            elif len(keys) == 1: ## one new name for the one key there is: relabel(['A']) reaches here as 'A'
+                res = {keys[0] : arg}
         elif callable(arg):
             res = {key : arg(key) for key in keys}
         elif isinstance(arg, dict):
